@@ -191,10 +191,10 @@ PROPS["C08"] = dict(
 )
 
 PROPS["C11"] = dict(
-    slices=["swaps", "swaps_sem"],
-    thorough_slices=["swaps", "swaps_sem", "remove_segment", "override_reassign", "fit_reassign", "add_path", "spawn_vehicle", "dummy_ops", "depot_ops", "update_tours", "train_formation_update"],
+    slices=["swaps", "swaps_sem", "sched_guard"],
+    thorough_slices=["swaps", "swaps_sem", "sched_guard", "remove_segment", "override_reassign", "fit_reassign", "add_path", "spawn_vehicle", "dummy_ops", "depot_ops", "update_tours", "train_formation_update"],
     witness_family=None,
-    level_text="per-function links: Verus proves on the verbatim bodies of the four neighbourhood moves (RemoveSingleNode, AddTripForHitchHiking, SpawnVehicleForMaintenance, PathExchange: Swap::apply) and of improve_depot_and_recompute_transitions that every candidate is exactly the documented composition of schedule modifications (with every modification an uninterpreted function of its arguments: wiring), that no unwrap / index of these bodies can panic under stated preconditions on the move's parameters, and -- for RemoveSingleNode with the real contract of remove_segment -- that the candidate is a schedule with valid ids, exact depot usage, the removed trip handed back in a fresh dummy tour and exact aggregates; the modifications themselves are under contract one by one (thorough tier: their slices), each taking the schedule invariants as precondition. That every modification re-establishes ALL invariants the next one needs (the induction over compositions), the rayon generator and that the base schedule is only read (a `&Schedule` parameter: Rust's type system, not a proof obligation) are NOT decided",
+    level_text="per-function links: Verus proves on the verbatim bodies of the four neighbourhood moves (RemoveSingleNode, AddTripForHitchHiking, SpawnVehicleForMaintenance, PathExchange: Swap::apply) and of improve_depot_and_recompute_transitions that every candidate is exactly the documented composition of schedule modifications (with every modification an uninterpreted function of its arguments: wiring), that no unwrap / index of these bodies can panic under stated preconditions on the move's parameters, and -- for RemoveSingleNode with the real contract of remove_segment -- that the candidate is a schedule with valid ids, exact depot usage, the removed trip handed back in a fresh dummy tour and exact aggregates; the transition bookkeeping every move ends with (update_transitions_and_violation_fast: slice sched_guard) keeps the violation sum and the cycles consistent with the new tours; the modifications themselves are under contract one by one (thorough tier: their slices), each taking the schedule invariants as precondition. That every modification re-establishes ALL invariants the next one needs (the induction over compositions), the rayon generator and that the base schedule is only read (a `&Schedule` parameter: Rust's type system, not a proof obligation) are NOT decided",
     level_note="trusted: A-wire (modification stubs `r == sw::f(args)`), A-dyn (hand-declared trait Swap with a precondition hook), A-std (sort, dedup, filter_map), A-derive (Ord of VehicleTypeIdx), A-clone (Schedule::clone)",
     scope="solver/src/local_search/neighborhood/swaps.rs and swaps/*.rs (Swap::apply of the four moves, improve_depot_and_recompute_transitions)",
     assumptions=A_COMMON + A_ITER + [
